@@ -15,13 +15,15 @@ unsafe fn fp(a: u64) -> FuncPtrInternal {
 /// common set-up: one entry at a symbolic address with symbolic contents
 unsafe fn setup() -> (u64, [u8; sim::RLEN]) {
     sim::reset();
-    sim::PAGE = 4096;
-    sim::MODE = 0;
+    sim::S.NE_ACT = 1;
+    sim::S.NJ_ACT = 1;
+    sim::S.PAGE = 4096;
+    sim::S.MODE = 0;
     let f = any_entry_addr();
     let bytes: [u8; sim::RLEN] = kani::any();
     sim::register_entry(0, f, 16, bytes);
-    sim::COOP_CENTER = f;
-    sim::COOP_RANGE = crate::verif::VARIANT_RANGE;
+    sim::S.COOP_CENTER = f;
+    sim::S.COOP_RANGE = crate::verif::VARIANT_RANGE;
     (f, bytes)
 }
 
@@ -64,7 +66,7 @@ fn x64_core_redirect() {
             k += 1;
         }
         // C12
-        assert!(sim::live_jits() == 1 && sim::N_MUNMAP == 0, "VERIF[C12]: live trampolines differ from live guards after install");
+        assert!(sim::live_jits() == 1 && sim::S.N_MUNMAP == 0, "VERIF[C12]: live trampolines differ from live guards after install");
 
         kani::cover!(sim::JIT[0].bytes[0] == 0xE9, "COVER: rel32 trampoline form");
         kani::cover!(sim::JIT[0].bytes[0] == 0x48, "COVER: abs64 trampoline form");
@@ -82,7 +84,7 @@ fn x64_core_redirect() {
             k += 1;
         }
         assert!(sim::all_clean(), "VERIF[C17]: restored bytes are not covered by a later flush");
-        assert!(sim::live_jits() == 0 && sim::N_MUNMAP == 1, "VERIF[C12]: trampoline not released exactly once on drop");
+        assert!(sim::live_jits() == 0 && sim::S.N_MUNMAP == 1, "VERIF[C12]: trampoline not released exactly once on drop");
     }
 }
 
@@ -121,6 +123,6 @@ fn x64_core_boolean() {
             k += 1;
         }
         assert!(sim::all_clean(), "VERIF[C17]: restored bytes are not covered by a later flush");
-        assert!(sim::live_jits() == 0 && sim::N_MUNMAP == 1, "VERIF[C12]: trampoline not released exactly once on drop");
+        assert!(sim::live_jits() == 0 && sim::S.N_MUNMAP == 1, "VERIF[C12]: trampoline not released exactly once on drop");
     }
 }
